@@ -59,6 +59,7 @@ type c04Case struct {
 	arIRT     int // artifact: 0 same 1 other 2 prefix 3 empty 4 absent 5 previous resolve id (http only)
 	arSigned  bool
 	layout    int
+	noDest    bool // Response carries no Destination (only meaningful when the Response itself is unsigned, layout 1)
 }
 
 func (k c04Case) String() string {
@@ -66,7 +67,7 @@ func (k c04Case) String() string {
 	for _, f := range k.confs {
 		cs = append(cs, f.kind)
 	}
-	return fmt.Sprintf("P=%s resp=%s conf=[%s] allowIDP=%v validator=%d entry=%d arIRT=%d arSigned=%v layout=%d", c04Sets[k.set].name, k.resp.kind, strings.Join(cs, ","), k.allowIDP, k.validator, k.entry, k.arIRT, k.arSigned, k.layout)
+	return fmt.Sprintf("P=%s resp=%s conf=[%s] allowIDP=%v validator=%d entry=%d arIRT=%d arSigned=%v layout=%d nodest=%v", c04Sets[k.set].name, k.resp.kind, strings.Join(cs, ","), k.allowIDP, k.validator, k.entry, k.arIRT, k.arSigned, k.layout, k.noDest)
 }
 
 func inSet(ids []string, v string) bool {
@@ -93,6 +94,9 @@ func runC04(c *core.Ctx) {
 						continue
 					}
 					c04Run(c, o, c04Case{set: set, resp: r, confs: []fieldVal{cf}, entry: entry, layout: (set + entry) % 2, arSigned: set%2 == 0})
+					if entry < 2 {
+						c04Run(c, o, c04Case{set: set, resp: r, confs: []fieldVal{cf}, entry: entry, layout: 1, noDest: true})
+					}
 				}
 				for _, allow := range []bool{false, true} {
 					for v := 0; v < 3; v++ {
@@ -157,6 +161,7 @@ func runC04(c *core.Ctx) {
 		if k.entry >= 2 && c.Rng.Intn(4) == 0 {
 			k.arIRT = c.Rng.Intn(6)
 		}
+		k.noDest = k.layout == 1 && c.Rng.Intn(3) == 0
 		c04Run(c, o, k)
 	}
 }
@@ -198,6 +203,10 @@ func c04Run(c *core.Ctx, o *so.Oracle, k c04Case) {
 	}
 	rel := so.ResponseEl(o.Response("placeholder", fx.Now()), ael)
 	setOrRemoveAttr(rel, "InResponseTo", k.resp)
+	if k.noDest && k.layout == 1 {
+		rel.RemoveAttr("Destination")
+		c.Count("responses_without_destination")
+	}
 	if k.layout == 0 {
 		if rel, err = o.Sign(rel, s1, ""); err != nil {
 			c.Inconclusive("sign: " + err.Error())
